@@ -49,7 +49,8 @@ def case_s(draw, only_cls: str | None = None) -> dict[str, Any]:
         req = refcodec.REQ[cls].encode(kw)
     sid = req[0]
     rk = draw(st.sampled_from(["genuine", "genuine", "neg-same", "neg-other", "neg-same-invalid-code", "neg-same-badlen",
-                               "other-service", "other-service", "echo-changed", "echo-changed", "broken-format", "echo-other-requested"]))
+                               "other-service", "other-service", "echo-changed", "echo-changed", "broken-format", "echo-other-requested",
+                               "subfn-bit7", "sid-only"]))
     reply: bytes | None = None
     if rk == "echo-other-requested":
         # a reply that echoes an identifier of the request - but not the primary (first) one
@@ -96,13 +97,22 @@ def case_s(draw, only_cls: str | None = None) -> dict[str, Any]:
             reply = bytes([draw(st.integers(0, 255).filter(lambda x: x != 0x7F and x != sid + 0x40))]) + tail
         if reply[0] in (0x7F, sid + 0x40):
             reply = bytes([(reply[0] + 1) % 256 if (reply[0] + 1) % 256 not in (0x7F, sid + 0x40) else (reply[0] + 2) % 256]) + reply[1:]
-    elif rk in ("echo-changed", "broken-format"):
+    elif rk in ("echo-changed", "broken-format", "subfn-bit7", "sid-only"):
         spec = refcodec.REQ[cls] if cls else None
         gen = spec.reply(kw, tail) if spec and spec.reply else None
         echo = spec.echo(kw) if spec else []
         if gen is None or not echo or sid in (0x23, 0x3D) and rk == "broken-format":
             rk = "neg-same"
             reply = bytes([0x7F, sid, 0x31])
+        elif rk == "subfn-bit7" and sid in (0x10, 0x11, 0x27, 0x28, 0x3E, 0x85, 0x2C, 0x19, 0x31) and len(gen) >= 2 and gen[1] < 0x80:
+            # the right service, the requested sub-function - with bit 7 set (an echo of the suppress bit): no positive response
+            # carries that bit
+            reply = gen[:1] + bytes([gen[1] | 0x80]) + gen[2:]
+        elif rk == "sid-only" and sid in (0x10, 0x11, 0x27, 0x28, 0x3E, 0x85, 0x2C, 0x19, 0x31, 0x22, 0x2E, 0x2F):
+            # nothing but the response service id, where the positive response has mandatory parameters
+            reply = gen[:1]
+        elif rk in ("subfn-bit7", "sid-only"):
+            rk, reply = "genuine", gen
         elif rk == "echo-changed":
             i = draw(st.sampled_from(echo))
             if i >= len(gen):
@@ -152,6 +162,8 @@ def expected(case: dict[str, Any]) -> set[str]:
         return {"mismatch"} if k != "malformed" else {"mismatch", "malformed"}
     if rk == "broken-format":
         return {"accept", "malformed"}
+    if rk in ("subfn-bit7", "sid-only"):
+        return {"malformed", "mismatch"}  # refused, one way or the other
     raise AssertionError(rk)
 
 
@@ -173,7 +185,7 @@ def check(case: dict[str, Any]) -> list[tuple[str, str]]:
     if kind == "raw" and not isinstance(service.UDSRequest.parse_dynamic(req), service.RawRequest):
         return []  # generator meant an undecodable request; it decodes, so expectations do not apply
     exp = expected(case)
-    tag = case["cls"] if (case["cls"] and rk in ("genuine", "echo-changed", "broken-format", "echo-other-requested")) else kind
+    tag = case["cls"] if (case["cls"] and rk in ("genuine", "echo-changed", "broken-format", "echo-other-requested", "subfn-bit7", "sid-only")) else kind
     try:
         r = parse_pdu(reply, request)
         outcome = "accept"
